@@ -129,12 +129,52 @@ package extendeddaemonset
 //@   loop 1 invariant true
 //@   loop 1 modifies mapof(eds.ObjectMeta.Annotations)
 //@
-//@ func (*Reconciler).selectNodes
+//@ import intstrutil "k8s.io/apimachinery/pkg/util/intstr"
+//@ import scheduler "github.com/DataDog/extendeddaemonset/controllers/extendeddaemonsetreplicaset/scheduler"
+//@
+//@ func getAntiAffinityKeysValue
 //@   trusted
+//@   modifies nothing
+//@
+//@ func (*Reconciler).selectNodes
 //@   logs
-//@   requires canaryStatus != nil
+//@   requires r != nil && r.client != nil && daemonset != nil && daemonsetSpec != nil && daemonsetSpec.Strategy.Canary != nil && replicaset != nil && canaryStatus != nil
+//@   requires previously-selected-names-are-distinct: forall i int, j int :: 0 <= i && i < j && j < len(canaryStatus.Nodes) ==> canaryStatus.Nodes[i] != canaryStatus.Nodes[j]
 //@   modifies canaryStatus.Nodes
-//@   ensures only-lists: forall k int :: lognew(k) ==> logverb(k) == "List"
+//@   let n0 = old(loglen())
+//@   let wanted = fst(intstrutil.GetValueFromIntOrPercent(daemonsetSpec.Strategy.Canary.Replicas, int(daemonset.Status.Desired), true))
+//@   let NL = cast(logobj(n0 + 1), "*corev1.NodeList")
+//@   ensures [C11,C15] only-lists: forall k int :: lognew(k) ==> logverb(k) == "List"
+//@   ensures [C12,C15] pods-are-listed-in-the-own-namespace: loglen() > n0 ==> lognamespaced(n0) && logns(n0) == daemonset.ObjectMeta.Namespace
+//@   ensures [C15] replicas-resolved-against-the-daemonset-and-too-few-is-an-error: result == nil ==> len(canaryStatus.Nodes) >= wanted
+//@   ensures [C15] every-name-is-a-listed-node-that-can-run-the-pod: result == nil ==> loglen() == n0 + 2 && forall i int :: 0 <= i && i < len(canaryStatus.Nodes) ==>
+//@             exists j int :: 0 <= j && j < len(NL.Items) && canaryStatus.Nodes[i] == NL.Items[j].ObjectMeta.Name
+//@   ensures [C15] names-are-distinct: result == nil ==> forall i int, j int :: 0 <= i && i < j && j < len(canaryStatus.Nodes) ==> canaryStatus.Nodes[i] != canaryStatus.Nodes[j]
+//@   loop 1 invariant nodeNameRestarts != nil && fresh(nodeNameRestarts)
+//@   loop 1 modifies mapof(nodeNameRestarts)
+//@   loop 2 invariant true
+//@   loop 3 invariant keptNodes == nil || freshroot(keptNodes)
+//@   loop 3 invariant len(keptNodes) <= iter()
+//@   loop 3 invariant [C15] forall i int :: 0 <= i && i < len(keptNodes) ==> exists j int :: 0 <= j && j < len(nodeList.Items) && keptNodes[i] == nodeList.Items[j].ObjectMeta.Name
+//@   loop 3 invariant [C15] forall i int :: 0 <= i && i < len(keptNodes) ==> exists j int :: 0 <= j && j < iter() && keptNodes[i] == currentNodes[j]
+//@   loop 3 invariant [C15] forall i int, k int :: 0 <= i && i < k && k < len(keptNodes) ==> keptNodes[i] != keptNodes[k]
+//@   loop 4 invariant keptNodes == nil || freshroot(keptNodes)
+//@   loop 4 invariant len(keptNodes) <= iter(3)
+//@   loop 4 invariant [C15] forall i int :: 0 <= i && i < len(keptNodes) ==> exists j int :: 0 <= j && j < len(nodeList.Items) && keptNodes[i] == nodeList.Items[j].ObjectMeta.Name
+//@   loop 4 invariant [C15] forall i int :: 0 <= i && i < len(keptNodes) ==> exists j int :: 0 <= j && j < iter(3) && keptNodes[i] == currentNodes[j]
+//@   loop 4 invariant [C15] forall i int, k int :: 0 <= i && i < k && k < len(keptNodes) ==> keptNodes[i] != keptNodes[k]
+//@   loop 5 invariant antiAffinityKeysValues != nil && fresh(antiAffinityKeysValues)
+//@   loop 5 invariant iter() > 0 ==> len(antiAffinityKeysValues) >= 1
+//@   loop 5 modifies mapof(antiAffinityKeysValues)
+//@   loop 6 invariant antiAffinityKeysValues != nil && fresh(antiAffinityKeysValues)
+//@   loop 7 invariant antiAffinityKeysValues != nil && fresh(antiAffinityKeysValues)
+//@   loop 7 invariant len(daemonsetSpec.Strategy.Canary.NodeAntiAffinityKeys) != 0 && len(nodeList.Items) > 0 ==> len(antiAffinityKeysValues) >= 1
+//@   loop 7 modifies mapof(antiAffinityKeysValues), elems(currentNodes)
+//@   loop 7 invariant currentNodes == nil || freshroot(currentNodes)
+//@   loop 7 invariant len(currentNodes) < nbCanaryPod
+//@   loop 7 invariant [C15] forall i int :: 0 <= i && i < len(currentNodes) ==> exists j int :: 0 <= j && j < len(nodeList.Items) && currentNodes[i] == nodeList.Items[j].ObjectMeta.Name
+//@   loop 7 invariant [C15] forall i int, k int :: 0 <= i && i < k && k < len(currentNodes) ==> currentNodes[i] != currentNodes[k]
+//@   loop 8 invariant forall i int :: 0 <= i && i < iter() ==> currentNodes[i] != node.ObjectMeta.Name
 //@
 //@ import corev1 "k8s.io/api/core/v1"
 //@ spec fn sameTemplateScalars(a *corev1.PodTemplateSpec, b *corev1.PodTemplateSpec) bool =
@@ -156,8 +196,8 @@ package extendeddaemonset
 //@             cast(logobj(k), "*v1.ExtendedDaemonSet").Status.Canary == nil
 //@             && cast(logobj(k), "*v1.ExtendedDaemonSet").Status.State == "Canary Failed"
 //@             && cast(logobj(k), "*v1.ExtendedDaemonSet").Status.ActiveReplicaSet == current.ObjectMeta.Name
-//@   ensures [C07] rollback-restores-template: failed && result2 == nil ==> result != nil && sameTemplateScalars(&result.Spec.Template, &current.Spec.Template)
-//@   ensures [C07] rollback-spec-write-carries-template: failed ==> forall k int :: lognew(k) && logverb(k) == "Update" ==>
+//@   ensures [C07,C11] rollback-restores-template: failed && result2 == nil ==> result != nil && sameTemplateScalars(&result.Spec.Template, &current.Spec.Template)
+//@   ensures [C07,C11] rollback-spec-write-carries-template: failed ==> forall k int :: lognew(k) && logverb(k) == "Update" ==>
 //@             sameTemplateScalars(&cast(logobj(k), "*v1.ExtendedDaemonSet").Spec.Template, &current.Spec.Template)
 //@   ensures [C05,C14] active-is-current: current != nil ==> forall k int :: lognew(k) && logverb(k) == "StatusUpdate" ==>
 //@             cast(logobj(k), "*v1.ExtendedDaemonSet").Status.ActiveReplicaSet == current.ObjectMeta.Name
